@@ -3,7 +3,7 @@
 # takes the uncommitted diff + demo.py from /tmp/wt/<Cxx>, re-applies it to a fresh scratch worktree,
 # runs the pinned test suite with it, the demo with it (must exit != 0) and without it (must exit 0).
 id=$1; sfx=$2
-src=/tmp/wt/$id
+src=${SRC_ROOT:-/tmp/wt}/$id
 dst=/verif/seeded/$id$sfx
 mkdir -p $dst
 git -C $src diff > $dst/patch.diff
